@@ -1,16 +1,16 @@
 //! slot map family: FixedSizeSlotMap<T,N>, SlotMap, RelocatableSlotMap
-use crate::{CAPS, Case, begin, finish, note_reloc};
-use checks_bb::models::slotmap::*;
-use checks_bb::models::{Known, direct, op_sequences};
-use checks_bb::reloc::Block;
-use checks_bb::tracked::Tracked;
+use crate::families::{CAPS, Case, begin, finish, note_reloc};
+use crate::models::slotmap::*;
+use crate::models::{Known, direct, op_sequences};
+use crate::reloc::Block;
+use crate::tracked::Tracked;
 use iceoryx2_bb_container::slotmap::{FixedSizeSlotMap, RelocatableSlotMap, SlotMap, SlotMapKey};
 use proptest::prelude::*;
 use serde_json::json;
 use std::cell::RefCell;
 use vcore::{Ctx, Failure, Obs, ensure};
 
-fn run_case(c: &Case<SOp>, obs: &mut Obs, known: &Known) -> Result<(), Failure> {
+pub fn run_case(c: &Case<SOp>, obs: &mut Obs, known: &Known) -> Result<(), Failure> {
     begin(known);
     let mut nohook = |_: usize| {};
     macro_rules! fixed {
@@ -97,7 +97,7 @@ pub fn parts(ctx: &mut Ctx) {
     probes(ctx);
     let alphabet = sop_alphabet();
     let len = ctx.scale(6, 7);
-    let grid = crate::combos(3, |f, c| f != 1 && c == 0);
+    let grid = crate::families::combos(3, |f, c| f != 1 && c == 0);
     let cases = grid.iter().copied().flat_map(|(flavour, cap)| {
         op_sequences(&alphabet, len).map(move |ops| Case { flavour, cap, reloc: 0, ops })
     });
